@@ -230,7 +230,10 @@ def main():
                         ops2.append(("flush", e, tuple(fa)))
                 traces.append(run_trace(name, prog, ops2, a.mode))
     for name, prog in progs:
-        if a.what == "fail" and any((nd["kind"] == "zip" and nd.get("m")) or nd.get("f") == "freq" for nd in prog):
+        if a.what == "fail" and any((nd["kind"] == "zip" and nd.get("m")) or nd.get("f") in ("freq", "bsum", "batch", "cat") or nd.get("f", "").startswith("b_")
+                                    for nd in prog):
+            # (a Batch operation calls the user's function once per element of the batch, or not at all: the failure plan counts
+            # node-level invocations)
             continue        # (and frequencies() calls no user function that a failure could be planted in)        # (a failure inside a pending awaitable cannot be observed by a producer that does not wait)
         plans = plans_for(prog, a.tier, rng) if a.what == "plain" else fail_plans_for(prog, a.tier, rng)
         if name.startswith("chain:") and name.count(">") >= 1 and a.what == "plain":
